@@ -99,7 +99,8 @@ func randCase(t *rapid.T, s string) string {
 
 func genScenario(t *rapid.T) scenario {
 	s := scenario{
-		Method:      rapid.SampledFrom([]string{"GET", "POST", "PUT", "PATCH", "DELETE"}).Draw(t, "method"),
+		// (methods are case-sensitive tokens: extension methods and other spellings are methods of their own)
+		Method:      rapid.SampledFrom([]string{"GET", "POST", "PUT", "PATCH", "DELETE", "GET", "POST", "PURGE", "Purge", "get", "M-SEARCH", "query"}).Draw(t, "method"),
 		TLS:         rapid.IntRange(0, 3).Draw(t, "tls") == 0,
 		Slash:       rapid.SampledFrom([]string{"", "no_decode", "on"}).Draw(t, "slash"),
 		RawQuery:    rapid.SampledFrom(queries).Draw(t, "query"),
